@@ -132,7 +132,7 @@ def run(ctx):
         known["weekno-spill"] += 1
         ctx.cov["weekno_spill_probe"] = "BYWEEKNO=1;BYDAY=MO from 2020-01-06: %s" % wdays
         if not any(k.get("status") == "known" and k.get("class") == "weekno-spill" for k in kl):
-            fails.append(({"op": "p.occ", "rule": None}, "FREQ=YEARLY;BYWEEKNO=1;BYDAY=MO: the Monday of week 1 of 2025 (2024-12-30) is not among %s" % wdays))
+            fails.append(({"op": "p.occ %s 8" % pcal.encode().hex(), "rule": None}, "FREQ=YEARLY;BYWEEKNO=1;BYDAY=MO: the Monday of week 1 of 2025 (2024-12-30) is not among %s" % wdays))
     for k in kl:
         if k.get("status") == "known" and known.get(k.get("class"), 0):
             ctx.known(k["what"])
@@ -165,7 +165,8 @@ def run(ctx):
                         "occurrences beyond 2099 are not judged (supported range)"]
     if fails:
         x, why = fails[0]
-        ctx.violation("property", why, {"op": x["op"], "dtstart": rrgen.dtstart_text(x["ds"]), "rrule": x["rule"].text(),
+        ctx.violation("property", why, {"op": x["op"], "dtstart": rrgen.dtstart_text(x["ds"]) if x.get("ds") else None,
+                                        "rrule": x["rule"].text() if x.get("rule") else None,
                                         "failures_total": len(fails), "more": [w[:300] for _, w in fails[1:6]]})
     elif corr:
         i, op, a, b = corr[0]
